@@ -2,7 +2,7 @@
 import absint
 import q
 from mir import Agg, Bin, Call, Const, Named, Var
-from rules.common import expect_defs, has_fact, must_pass
+from rules.common import expect_defs, has_fact, loop_passes, must_pass
 from rules.typesrules import field_writers
 
 B = "builder::SourceMapBuilder::"
@@ -429,6 +429,10 @@ def flatten_translation(ctx, rule):
     if not ctx.check(len(adds) == 1, rule, fn, "add:one", "each token is re-inserted with one builder.add call"):
         return
     ab, at = adds[0]
+    tok_l = [l for l, n in roles.items() if n == "token"][0]
+    t_entry = b.defs[tok_l][0][0]
+    t_heads = [bi for bi, t in b.calls() if q.nice(t.get("resolved") or t.get("callee")) in ("TokenIter::next",) or q.shape(b.expr_of_call(t), {}) == "TokenIter::next(var:TokenIter)"]
+    ctx.check(bool(t_heads) and loop_passes(b, t_entry, t_heads[0], [ab]), rule, fn, "add:no-skip", "no token of a section is skipped (every iteration re-inserts its token or fails)")
     args = [b.expr_of_operand(a) for a in at["args"]]
     r = dict(roles)
 
@@ -544,6 +548,10 @@ def sections_sorted(ctx, rule):
     ok = len(pushes) == 1 and len(sorts) == 1 and not b.reaches(sorts[0][0], pushes[0][0])
     ctx.check(ok, rule, fn, "no-push-after-sort", "no section is added after the sort")
     if pushes:
+        heads = [bi for bi, t in q.calls_to(b, "Iterator::next")]
+        if heads:
+            entry = [tb for v, tb in b.blocks[b.blocks[heads[0]]["term"]["t"]]["term"].get("arms", []) if v == 1]
+            ctx.check(bool(entry) and loop_passes(b, entry[0], heads[0], [pushes[0][0]]), rule, fn, "section:no-skip", "every raw section becomes a section of the index (none is skipped)")
         sh = q.shape(q.arg_expr(b, pushes[0][1], 1), roles)
         ok = q.wild("SourceMapSection::new(tuple(*.offset.line,*.offset.column),*.url,*)", sh)
         ctx.check(ok, rule, fn, "section:new", "each section is built from (offset.line, offset.column), url and the decoded embedded map", detail=sh[:300])
